@@ -322,6 +322,33 @@ def blind_spot_batches(rng, tier):
                 note="maybe / either-match / variant-match / variant-apply with continuations that return a reference to the payload "
                      "of their argument: the result must be the object inside the source (`in:`), not a temporary (`other:` / ASan)")
 
+    # ---- continuations that write through their argument
+    ops = [f"o.map.mut {o} {f}" for o, f in prod(OPT, T_DD + with_x(D)[:8])]
+    ops += [f"o.bind.mut {o} {f}" for o, f in prod(OPT, T_DO)]
+    ops += [f"o.maybe.mut {o} {d} {f}" for o, d, f in prod(OPT, D, T_DD)]
+    ops += [f"o.maybe_void.mut {o}" for o in OPT]
+    for a, b in prod(OPT, OPT):
+        for _ in range(3):
+            ops.append(f"o.apply2.mut {a} {b} {rtable(r, D, 9)}")
+            ops.append(f"o.mm2.mut {a} {b} {r.choice(D)} {rtable(r, D, 9)}")
+    ops += [f"e.map.mut {e} {f}" for e, f in prod(EITH, T_DD)]
+    ops += [f"e.bind.mut {e} {f}" for e, f in prod(EITH, T_DE)]
+    ops += [f"e.mapf.mut {e} {f}" for e, f in prod(EITH, T_DD)]
+    ops += [f"e.match.mut {e} {f} {g}" for e, f, g in prod(EITH, T_DD, T_DD[::5])]
+    for a, b in prod(EITH, EITH):
+        for _ in range(3):
+            ops.append(f"e.apply2.mut {a} {b} {rtable(r, D, 9)}")
+    for v in VAR:
+        for f in T_DD:
+            g, h = r.choice(T_DD), r.choice(T_DD)
+            fs = {"A": (f, g, h), "B": (g, f, h), "C": (g, h, f)}[v[0]]
+            ops.append(f"v.match.mut {v} {fs[0]} {fs[1]} {fs[2]}")
+        ops += [f"v.apply1.mut {v} {rtable(r, D, 9)}" for _ in range(6)]
+    yield Batch("writing-continuations", ops,
+                note="map bind maybe maybe_void apply/2 maybe_multi/2, either map bind map_failure match apply/2, variant match apply on a "
+                     "non-const lvalue with continuations that take `T &` and write through it: the argument must be the object inside "
+                     "the source (move_type<Optional &> = T &), so the source shows the new value afterwards")
+
     # ---- constructors
     ops = [f"o.ctor {c} {v}" for c, v in prod(CATS, D)]
     ops += [f"e.ctor {c} {k} {v}" for c, k, v in prod(CATS, "FS", D)]
